@@ -19,8 +19,8 @@
   written with its explicit `% 2^32`. Overflow-freedom is therefore a theorem (Props/C05), not an assumption.
   `assert!` = `.error .assertion`, slice/array index out of range = `.error .index`.
 
-  One `def` per Rust fn, same names. Two variants of `finish`: `.current` is the code as it is in /repo today
-  (sets `finalized` only inside `if self.leftover > 0`), `.repaired` sets it unconditionally.
+  One `def` per Rust fn, same names. Two variants of `finish`: `.repaired` is the code as it is in /repo now
+  (sets `finalized` unconditionally), `.original` the code as first found (only inside `if self.leftover > 0`).
 -/
 import CxVerif.Util.Bytes
 namespace Cx.Impl.Poly1305
@@ -34,12 +34,12 @@ inductive Panic where
 
 /-- which `finish` -/
 inductive Variant where
-  | current     -- /repo as found: `self.finalized = true` only inside `if self.leftover > 0 { … }`
-  | repaired    -- `self.finalized = true` unconditionally
+  | original    -- /repo as first found (before commit 802db65): `self.finalized = true` only inside `if self.leftover > 0 { … }`
+  | repaired    -- /repo now: `self.finalized = true` unconditionally (after the `if`)
   deriving DecidableEq, Repr
 
-/-- THE SWITCH: the variant the driver uses for the correspondence with /repo.
-    The integrator changes this to `.repaired` after fixing /repo. -/
+/-- THE SWITCH: the variant the driver uses for the correspondence with /repo (= the code as it is now).
+    `.original` is kept as documentation of defect (c) together with its witness theorem (Props/C09). -/
 def codeVariant : Variant := .repaired
 
 /-- `[u32; 5]` -/
@@ -182,7 +182,7 @@ def block (st : State) (m : Bytes) : Except Panic State :=
   let b := blockArith st.r st.h (loadBlock m hibit)
   if b.Ok then .ok { st with h := b.out } else .error .overflow
 
-/-- everything `finish` computes after the optional last block -/
+/-- everything `finish` computes after the optional last block (named intermediate values) -/
 structure FinishArith where
   h2a : Nat
   h3a : Nat
@@ -190,6 +190,11 @@ structure FinishArith where
   cx5 : Nat
   h0a : Nat
   h1b : Nat
+  k : L5          -- the fully carried h
+  g : L5          -- h + 5 - 2^130, limb-wise, before masking
+  mask : Nat
+  q : L5          -- the selected limbs
+  w : L4          -- h % 2^128 packed into four u32
   f0 : Nat
   f1 : Nat
   f2 : Nat
@@ -209,10 +214,10 @@ def finishArith (h : L5) (pad : L4) : FinishArith :=
   let h2a := h2 + c                                   -- u32 +=
   let c := h2a >>> 26
   let h2 := h2a &&& 0x3ffffff
-  let h3a := h3 + c
+  let h3a := h3 + c                                   -- u32 +=
   let c := h3a >>> 26
   let h3 := h3a &&& 0x3ffffff
-  let h4a := h4 + c
+  let h4a := h4 + c                                   -- u32 +=
   let c := h4a >>> 26
   let h4 := h4a &&& 0x3ffffff
   let cx5 := c * 5                                    -- u32 *
@@ -221,6 +226,7 @@ def finishArith (h : L5) (pad : L4) : FinishArith :=
   let h0 := h0a &&& 0x3ffffff
   let h1b := h1 + c                                   -- u32 +=
   let h1 := h1b
+  let k : L5 := ⟨h0, h1, h2, h3, h4⟩
   -- compute h + -p
   let g0 := (h0 + 5) % 2 ^ 32                         -- wrapping_add
   let c := g0 >>> 26
@@ -235,6 +241,7 @@ def finishArith (h : L5) (pad : L4) : FinishArith :=
   let c := g3 >>> 26
   let g3 := g3 &&& 0x3ffffff
   let g4 := ((h4 + c) % 2 ^ 32 + (2 ^ 32 - (1 <<< 26))) % 2 ^ 32     -- wrapping_add(c).wrapping_sub(1 << 26)
+  let g : L5 := ⟨g0, g1, g2, g3, g4⟩
   -- select h if h < p, or h + -p if h >= p
   let mask := ((g4 >>> (32 - 1)) + (2 ^ 32 - 1)) % 2 ^ 32            -- wrapping_sub(1)
   let g0 := g0 &&& mask
@@ -242,27 +249,29 @@ def finishArith (h : L5) (pad : L4) : FinishArith :=
   let g2 := g2 &&& mask
   let g3 := g3 &&& mask
   let g4 := g4 &&& mask
-  let mask := mask ^^^ 0xffffffff                                    -- !mask
-  let h0 := (h0 &&& mask) ||| g0
-  let h1 := (h1 &&& mask) ||| g1
-  let h2 := (h2 &&& mask) ||| g2
-  let h3 := (h3 &&& mask) ||| g3
-  let h4 := (h4 &&& mask) ||| g4
+  let nmask := mask ^^^ 0xffffffff                                   -- mask = !mask
+  let h0 := (h0 &&& nmask) ||| g0
+  let h1 := (h1 &&& nmask) ||| g1
+  let h2 := (h2 &&& nmask) ||| g2
+  let h3 := (h3 &&& nmask) ||| g3
+  let h4 := (h4 &&& nmask) ||| g4
+  let q : L5 := ⟨h0, h1, h2, h3, h4⟩
   -- h = h % (2^128)     (`<<` on u32 drops the high bits)
   let h0 := (h0 ||| ((h1 <<< 26) % 2 ^ 32)) &&& 0xffffffff
   let h1 := ((h1 >>> 6) ||| ((h2 <<< 20) % 2 ^ 32)) &&& 0xffffffff
   let h2 := ((h2 >>> 12) ||| ((h3 <<< 14) % 2 ^ 32)) &&& 0xffffffff
   let h3 := ((h3 >>> 18) ||| ((h4 <<< 8) % 2 ^ 32)) &&& 0xffffffff
+  let w : L4 := ⟨h0, h1, h2, h3⟩
   -- h = mac = (h + pad) % (2^128)
   let f0 := h0 + pad.w0                               -- u64 +
   let h0 := f0 % 2 ^ 32                               -- f as u32
-  let f1 := h1 + pad.w1 + (f0 >>> 32)
+  let f1 := h1 + pad.w1 + (f0 >>> 32)                 -- u64 + +
   let h1 := f1 % 2 ^ 32
   let f2 := h2 + pad.w2 + (f1 >>> 32)
   let h2 := f2 % 2 ^ 32
   let f3 := h3 + pad.w3 + (f2 >>> 32)
   let h3 := f3 % 2 ^ 32
-  { h2a, h3a, h4a, cx5, h0a, h1b, f0, f1, f2, f3, out := ⟨h0, h1, h2, h3⟩ }
+  { h2a, h3a, h4a, cx5, h0a, h1b, k, g, mask, q, w, f0, f1, f2, f3, out := ⟨h0, h1, h2, h3⟩ }
 
 /-- every checked operation of `finish` fits its type -/
 def FinishArith.Ok (f : FinishArith) : Prop :=
@@ -291,7 +300,7 @@ def finish (v : Variant) (st : State) : Except Panic State :=
     else .error .index
   else
     match v with
-    | .current => finishTail st
+    | .original => finishTail st
     | .repaired => finishTail { st with finalized := true }
 
 /-- `for i in 0..want { self.buffer[self.leftover + i] = m[i]; }` with its index checks -/
